@@ -91,6 +91,11 @@ type Params struct {
 	// does this, but the API allows it, and it is the one instant at which the
 	// in-memory commitment chain is ahead of the durable one (C06 release rule).
 	ProbeLiveReest bool `json:"probe_live_reest,omitempty"`
+	// ProbeMidStep adds the same terminal `probe>X` action and calls
+	// Hooks.OnMidStep after X's ReceiveNewCommitment and before its
+	// RevokeCurrentCommitment (the link makes the two calls back to back but
+	// releases the channel mutex in between, so e.g. a force close can land there).
+	ProbeMidStep bool `json:"probe_mid_step,omitempty"`
 	// CutOnlyInSync restricts second and later cuts to states where
 	// resynchronisation is still in progress (quick tier of C02/C03).
 	CutOnlyInSync bool `json:"cut_only_in_sync"`
@@ -135,10 +140,10 @@ func (p Params) Name() string {
 
 const (
 	defaultCapacitySat = 10 * 100_000_000
-	anchorSat   = 330
-	csvA        = 5
-	csvB        = 4
-	thawHeight  = 500_000
+	anchorSat          = 330
+	csvA               = 5
+	csvB               = 4
+	thawHeight         = 500_000
 )
 
 // Violation is reported through this callback.
@@ -198,8 +203,8 @@ type htlc struct {
 	// API call). Part of the canonical key: a restore bug makes the two differ.
 	addRestored bool
 	resRestored bool
-	preimage  [32]byte
-	hash      [32]byte
+	preimage    [32]byte
+	hash        [32]byte
 	// seen[o] = 1 + first height of chain owner o on which it appeared (0 = never)
 	seen [2]uint64
 	// gone[o] = 1 + first height of chain owner o on which it was absent again
@@ -218,14 +223,14 @@ type World struct {
 	feeSigned int
 	// feeRestored[k]: the opener's log entry of fee update k was rebuilt from disk.
 	feeRestored []bool
-	cuts      int
-	gross     [2]int64 // gross shares in satoshi (before opener fee/anchors)
-	hist      []string
-	report    Reporter
-	dir       string
-	sendSeq   int
-	closed    bool
-	dead      bool // a terminal probe consumed this world
+	cuts        int
+	gross       [2]int64 // gross shares in satoshi (before opener fee/anchors)
+	hist        []string
+	report      Reporter
+	dir         string
+	sendSeq     int
+	closed      bool
+	dead        bool // a terminal probe consumed this world
 	// Hooks for other properties riding on the same exploration.
 	Hooks Hooks
 	// counters
@@ -240,6 +245,10 @@ type Hooks struct {
 	AfterStep func(w *World, action string)
 	// OnRevoke is called for every revoke_and_ack returned by the API.
 	OnRevoke func(w *World, p int, rev *lnwire.RevokeAndAck, retransmit bool)
+	// OnMidStep is called by the terminal probe action between party p's
+	// ReceiveNewCommitment and RevokeCurrentCommitment (local chain tip is one
+	// ahead of the durable tail).
+	OnMidStep func(w *World, p int)
 	// OnReload is called for each party after it reloaded, with the pre-crash
 	// projection taken just before.
 	OnReload func(w *World, p int)
@@ -519,16 +528,16 @@ func (w *World) Close() {
 
 // Party accessors for harnesses.
 func (w *World) Chan(i int) *lnwallet.LightningChannel { return w.pt[i].ch }
-func (w *World) Signer(i int) *input.MockSigner         { return w.pt[i].signer }
-func (w *World) Keys(i int) []*btcec.PrivateKey         { return w.pt[i].keys }
-func (w *World) Producer(i int) shachain.Producer        { return w.pt[i].producer }
-func (w *World) ChanType() chanstate.ChannelType         { return w.ct }
-func (w *World) Hist() []string                          { return append([]string{}, w.hist...) }
-func (w *World) DB(i int) *channeldb.DB                  { return w.pt[i].db }
-func (w *World) CrashDB(i int) *crashdb.DB               { return w.pt[i].cdb }
-func (w *World) Preimage(k int) [32]byte                 { return w.h[k].preimage }
-func (w *World) NumIntents() int                         { return len(w.h) }
-func (w *World) Cuts() int                               { return w.cuts }
+func (w *World) Signer(i int) *input.MockSigner        { return w.pt[i].signer }
+func (w *World) Keys(i int) []*btcec.PrivateKey        { return w.pt[i].keys }
+func (w *World) Producer(i int) shachain.Producer      { return w.pt[i].producer }
+func (w *World) ChanType() chanstate.ChannelType       { return w.ct }
+func (w *World) Hist() []string                        { return append([]string{}, w.hist...) }
+func (w *World) DB(i int) *channeldb.DB                { return w.pt[i].db }
+func (w *World) CrashDB(i int) *crashdb.DB             { return w.pt[i].cdb }
+func (w *World) Preimage(k int) [32]byte               { return w.h[k].preimage }
+func (w *World) NumIntents() int                       { return len(w.h) }
+func (w *World) Cuts() int                             { return w.cuts }
 
 // IntentByHash finds the preimage for a payment hash (for C05).
 func (w *World) PreimageFor(hash [32]byte) ([32]byte, bool) {
@@ -647,7 +656,7 @@ func (w *World) Enabled() []string {
 			}
 		}
 	}
-	if w.P.ProbeLiveReest {
+	if w.P.ProbeLiveReest || w.P.ProbeMidStep {
 		for i := 0; i < 2; i++ {
 			if len(w.wire[i]) > 0 && w.wire[i][0].kind == "sig" && !w.pt[i].needSync && !w.pt[1-i].needSync {
 				acts = append(acts, "probe>"+w.pt[i].name)
